@@ -43,7 +43,8 @@ static struct loopctx L[2];
 static int cycles, with_sig, with_ino, sigflags[2];
 
 static void ev_cb(void *c) { ((struct loopctx *)c)->handled++; }
-static void raw_cb(void *c) { (void)c; }
+static int raw_handled[2];
+static void raw_cb(void *c) { raw_handled[((struct loopctx *)c)->id]++; }
 static void sig_cb(void *c) { (void)c; }
 
 static void ino_cb(void *_c, struct inotify_event *ev)
@@ -61,6 +62,8 @@ static void tm_cb(void *_c)
 	struct loopctx *c = _c;
 	mc_obs("T%d:teardown", c->id);
 	mc_mark_callback();
+	if (raw_handled[c->id] != 1)
+		mc_fail("raw-lost", "thread %d: its raw event was posted once before the loop started, handler ran %d times", c->id, raw_handled[c->id]);
 	iv_event_unregister(&c->ev);
 	iv_event_raw_unregister(&c->raw);
 	if (with_sig)
@@ -119,6 +122,9 @@ static void body(void *_c)
 			}
 		}
 		iv_event_post(&c->ev);
+		/* a kernel-reported readiness in every loop: the poll result buffers of both threads are written */
+		raw_handled[c->id] = 0;
+		iv_event_raw_post(&c->raw);
 		IV_TIMER_INIT(&c->tm);
 		c->tm.cookie = c;
 		c->tm.handler = tm_cb;
